@@ -424,4 +424,4 @@ Proof. vm_compute. repeat split. Qed.
 Lemma extract_wrap_refuted_proof :
   exists l b, wf_c l /\ mem_c l 5 = false /\
               mem_c (fst (c_extract_rev_gen true l b)) 5 = true.
-Proof. exists (c_make 0 0), 0. repeat split; cbn; auto. lia. Qed.
+Proof. exists (c_make 0 0), 0. split; [cbn; lia|]. split; vm_compute; reflexivity. Qed.
